@@ -246,6 +246,14 @@ func Build(d *Data, modes Modes, h *Hooks) *graphql.Schema {
 	q.FieldFunc("users", func() []*User { return d.Users })
 	q.FieldFunc("user", func(args struct{ Id int64 }) *User { return d.UserByID(args.Id) })
 	q.FieldFunc("items", func() []*Item { return d.Items })
+	// the users with null entries in front of and between them
+	q.FieldFunc("usersN", func() []*User {
+		out := []*User{nil}
+		for _, u := range d.Users {
+			out = append(out, u, nil)
+		}
+		return out
+	})
 	// the same objects handed to the executor by value (Item holds a slice: not comparable)
 	q.FieldFunc("usersV", func() []User {
 		var out []User
